@@ -920,10 +920,7 @@ func emitNumberSpellings(out *Out, r *Rng, root OObj, draft string) {
 		if verdict == "error" {
 			impl = J{"err": "err"}
 		}
-		op := "schema.validate"
-		if ns.step != nil {
-			op = "none" // multipleOf is outside the Lean validator: judged by the two predicates only
-		}
+		op := "schema.validate" // multipleOf included: the Lean validator compares exact decimals (Schema.isMultiple)
 		tags := []string{"draft:" + draft, "verdict:" + verdict, "number-spelling", "kw:" + ns.kind}
 		for _, kd := range []string{"plain", "exp-negative", "exp-unsigned", "exp-plus", "exp-zero"} {
 			if kinds[kd] {
